@@ -29,7 +29,9 @@ RULE = ('trait-combination images built from each format\'s layout (qcow2: each 
         'protective table, random (quick) or all 10^4 (thorough) combinations; raw/vhd/vdi/iso/vhdx clean) plus '
         'truncations at every structure boundary, each streamed under chunkings from images.chunkings (one chunk, '
         'fixed sizes, cuts at -1/0/+1 of structure boundaries, random, empty chunks); the same images as files '
-        'for detect_file_format, from_file and the CLI; chunks are presented as bytes or as bytearray / memoryview '
+        'for detect_file_format, from_file and the CLI, and read through InspectWrapper -> format -> safety_check() '
+        'with zero-length reads before and between the real ones, sizes None / -1, every legal constructor call '
+        'form, read(size=...), real files, iterator sources and iteration protocols; chunks are presented as bytes or as bytearray / memoryview '
         'slices of one reused buffer that afterwards holds a clean header of the same format; every verdict is '
         'taken three times on the same inspector, interleaved with the other property reads. A case is non-trivial when the checks actually ran on both sides '
         '(verdict ok or failed:<names>) or, for the CLI, when a specific (non-raw) format was detected; distinct by '
@@ -85,13 +87,63 @@ def case_of(it, sizes, kind='insp', feed='bytes'):
     return c
 
 
-def impl_verdicts(fmt, data, sizes, feed='bytes'):
+def impl_verdicts(fmt, data, sizes, feed='bytes', forms=None):
     """the implementation's verdict taken three times on the SAME inspector (each taking reads format_match,
     complete, virtual_size, runs safety_check and reads context_info): a verdict is a function of the bytes, so
     the three agree - and agree with the model.  With a reused-buffer feed the buffer is refilled with a clean
     header of the same format before the verdicts are taken."""
-    i, raised = G.feed_inspector(fmt, data, sizes, feed, G.clean_header(fmt) if feed != 'bytes' else None)
+    try:
+        i, raised = G.feed_inspector(fmt, data, sizes, feed, G.clean_header(fmt) if feed != 'bytes' else None, forms)
+    except G.CallFormError as e:
+        return ['CALL-FORM-REJECTED: %s' % e] * 3
     return [proj(insp_impl.show_verdict(i, None)) for _ in range(3)]
+
+
+def wrap_verdict(data, ops, u=None, expected=None):
+    """the image read through an InspectWrapper (all formats) the way `u` says, closed, then
+    wrapper.format.safety_check() three times: 'final=<format or EXC:...> safety=<verdict>'"""
+    try:
+        t = G.wrap_trace(None, data, ops, expected, 'str', u)
+    except G.CallFormError as e:
+        return 'CALL-FORM-REJECTED: %s' % e
+    w = t['wrapper']
+    try:
+        i = w.format
+    except Exception as e:
+        return 'final=EXC:%s safety=-' % type(e).__name__
+    if i is None:
+        return 'final=None safety=-'
+    outs = [G.safety_outcome(i) for _ in range(3)]
+    return 'final=%s safety=%s' % (i.NAME, outs[0] if len(set(outs)) == 1 else 'REPEATED QUERIES DISAGREE: ' + ' ~ '.join(outs))
+
+
+def model_wrap_verdict(reply):
+    parts = reply.split('\t')
+    if len(parts) != 4:
+        return reply
+    final = parts[2].split('/')[0]
+    if final.startswith('EXC:'):
+        return 'final=%s safety=-' % final
+    for ent in parts[3].split(';'):
+        if ent.split(' ')[0].rstrip('!') == final:
+            return 'final=%s safety=%s' % (final, G.verdict_fields(ent).get('safety'))
+    return 'final=%s safety=?' % final
+
+
+def wrap_ops(it, rng):
+    """(read ops, usage) for a wrapper run: a chunking of the image with zero-length reads before and between the
+    real ones, None / -1 for the rest, and an unusual but legal use of the public interface half of the time"""
+    n = len(it['data'])
+    base = rng.choice(G.pick_chunkings(it, rng, 3))
+    if len(base) > 300:
+        base = [n]
+    u = G.pick_usage(rng, None, None, iterator=False, p_plain=0.4)
+    if rng.random() < 0.25 and len(base) <= 64:
+        u['iterator'] = True
+        u['proto'] = rng.choice(G.ITER_PROTOS)
+        return list(base), u
+    ops = G.vary_ops(base, n, rng, u['source']) if rng.random() < 0.8 else list(base)
+    return ops, u
 
 
 def pick_feed(rng):
@@ -137,7 +189,10 @@ def correspondence(ctx):
     for (it, sizes), rep in zip(cases, replies):
         ctx.evaluations += 1
         feed = pick_feed(rng)
-        vs = impl_verdicts(it['fmt'], it['data'], sizes, feed)
+        forms = G.pick_insp_forms(rng)
+        vs = impl_verdicts(it['fmt'], it['data'], sizes, feed, forms)
+        if forms:
+            ctx.count('inspector-call-forms/%s%s%s' % (forms[0], '+tracing' if forms[1] else '', '+eat_chunk(chunk=)' if forms[2] else ''))
         pm = proj(rep)
         pi = vs[0] if vs[0] == vs[1] == vs[2] else 'REPEATED QUERIES DISAGREE: ' + ' ~ '.join(vs)
         saf = G.verdict_fields(vs[0]).get('safety', '?')
@@ -151,7 +206,25 @@ def correspondence(ctx):
           ctx.sample({'label': it['label'], 'expect': it['expect'], 'length': len(it['data']), 'chunks': len(sizes),
                     'implementation': pi, 'model': pm}, 5)
         if pi != pm:
-            out.append(Disagreement(case_of(it, sizes, feed=feed), pi, pm))
+            c = case_of(it, sizes, feed=feed)
+            if forms:
+                c['forms'] = list(forms)
+            out.append(Disagreement(c, pi, pm))
+    # the same images through InspectWrapper -> format -> safety_check()
+    small = [it for it in items if len(it['data']) <= 64 * images.K]
+    wl = cli_files(small, rng, 220 if ctx.quick else 2500)
+    wcases = [(it,) + wrap_ops(it, rng) for it in wl]
+    replies = G.ask_par(ctx.driver, [G.wrap_req(None, None, it['data'], ops) for it, ops, _u in wcases])
+    for (it, ops, uu), rep in zip(wcases, replies):
+        ctx.evaluations += 1
+        pi, pm = wrap_verdict(it['data'], ops, uu), model_wrap_verdict(rep)
+        ctx.count('corr/wrapper/' + pi.split(' ')[0])
+        if 'safety=ok' in pi or 'safety=failed' in pi:
+            ctx.nontrivial(('wrap', G.digest(it['data']), str(ops), str(sorted(uu.items()))))
+        if pi != pm:
+            c = case_of(it, None, 'wrap')
+            c.update(sizes=list(ops), usage=uu)
+            out.append(Disagreement(c, pi, pm))
     # detect_file_format + CLI exit status on real files
     files = cli_files([it for it in items if len(it['data']) <= 64 * images.K], rng, 18 if ctx.quick else 290)
     big = [it for it in items if len(it['data']) > 64 * images.K]
@@ -180,11 +253,15 @@ def correspondence(ctx):
 # --------------------------------------------------------------------------
 # failing-input search: the property stated on the implementation only
 
-def insp_oracle(fmt, data, sizes, expect, feed='bytes'):
+def insp_oracle(fmt, data, sizes, expect, feed='bytes', forms=None):
     """None, or how the fail-closed property fails for this image under this chunking.  The verdict is taken
     three times on the same inspector, interleaved with reads of the other properties; with a reused-buffer
     feed the buffer holds a clean header of the same format by then."""
-    i, _raised = G.feed_inspector(fmt, data, sizes, feed, G.clean_header(fmt) if feed != 'bytes' else None)
+    try:
+        i, _raised = G.feed_inspector(fmt, data, sizes, feed, G.clean_header(fmt) if feed != 'bytes' else None,
+                                      tuple(forms) if forms else None)
+    except G.CallFormError as e:
+        return str(e)
     outs = []
     for k in range(3):
         o = G.safety_outcome(i)
@@ -318,18 +395,27 @@ def file_verdicts(it_or_case, tmp):
     with open(path, 'wb') as fh:
         fh.write(it_or_case['data'])
     objs = []
-    try:
-        objs.append(('detect_file_format', F.detect_file_format(path)))
-    except F.ImageFormatError:
-        pass
-    cls = F.ALL_FORMATS.get(it_or_case.get('fmt'))
-    if cls is not None:
+    for tag in G.call_tags('detect_file_format', [path]):             # positional and filename=...
         try:
-            objs.append(('%s.from_file' % cls.__name__, cls.from_file(path)))
+            objs.append((G.render_call('detect_file_format', ['<path>'], tag),
+                         G.invoke(F.detect_file_format, 'detect_file_format', [path], tag)))
         except F.ImageFormatError:
             pass
-        except Exception as e:
-            return 'from_file raised %s' % type(e).__name__
+        except G.CallFormError as e:
+            return str(e)
+    cls = F.ALL_FORMATS.get(it_or_case.get('fmt'))
+    if cls is not None:
+        for tag in G.call_tags('FileInspector.from_file', [path]):
+            shown = '%s.from_file' % cls.__name__
+            try:
+                objs.append((G.render_call('FileInspector.from_file', ['<path>'], tag, shown),
+                             G.invoke(cls.from_file, 'FileInspector.from_file', [path], tag, shown)))
+            except F.ImageFormatError:
+                pass
+            except G.CallFormError as e:
+                return str(e)
+            except Exception as e:
+                return 'from_file raised %s' % type(e).__name__
     for how, i in objs:
         outs = []
         for _ in range(3):
@@ -342,6 +428,20 @@ def file_verdicts(it_or_case, tmp):
             return 'repeated safety_check calls on the inspector from %s disagree: %s' % (how, ' then '.join(outs))
         if outs[0] == 'ok' and it_or_case.get('cli') == 'unsafe' and str(i) == it_or_case.get('fmt'):
             return 'unsafe image accepted through %s' % how
+    return None
+
+
+def wrap_oracle(it_or_case, ops, u):
+    """an image that is unsafe as a file is never accepted through wrapper.format.safety_check(), however the
+    wrapper is read; a clean one is detected as its format and accepted"""
+    v = wrap_verdict(it_or_case['data'], ops, u)
+    if v.startswith('CALL-FORM-REJECTED') or 'REPEATED QUERIES DISAGREE' in v:
+        return v
+    exp = it_or_case.get('cli', 'free')
+    if exp == 'unsafe' and v.endswith('safety=ok'):
+        return 'unsafe image accepted through InspectWrapper: %s' % v
+    if exp == 'clean' and v != 'final=%s safety=ok' % it_or_case['fmt']:
+        return 'clean %s image not accepted through InspectWrapper: %s' % (it_or_case['fmt'], v)
     return None
 
 
@@ -370,9 +470,19 @@ def search(ctx, seeds, full=False):
                 add({'kind': 'check-error', 'fmt': fmt, 'check': name, 'exc': exc.__name__},
                     'check-error', 'check %s of %s raising %s: %s' % (name, fmt, exc.__name__, how), False)
 
-    def try_insp(fmt, data, sizes, expect, label, cli='free', feed='bytes'):
+    def try_insp(fmt, data, sizes, expect, label, cli='free', feed='bytes', forms='pick'):
         ctx.evaluations += 1
-        why = insp_oracle(fmt, data, sizes, expect, feed)
+        if forms == 'pick':
+            forms = G.pick_insp_forms(rng, 0.7)
+        why = insp_oracle(fmt, data, sizes, expect, feed, forms)
+        if why and forms and not insp_oracle(fmt, data, sizes, expect, feed, None):
+            # only this way of constructing / feeding the inspector fails
+            add({'kind': 'insp', 'fmt': fmt, 'label': label, 'expect': expect, 'cli': cli,
+                 'content': insp_impl.content_field(data), 'sizes': list(sizes), 'feed': feed, 'forms': list(forms)},
+                'call form ' + why.split(' (')[0].split(':')[0][:60],
+                '%s: %s [inspector constructed with tag %s tracing=%s, eat_chunk %s]'
+                % (label, why, forms[0], forms[1], 'by keyword' if forms[2] else 'positional'), False)
+            return
         if why:
             if feed != 'bytes' and insp_oracle(fmt, data, sizes, expect, 'bytes'):
                 feed = 'bytes'                      # the presentation is not what makes it fail
@@ -395,9 +505,15 @@ def search(ctx, seeds, full=False):
             data = G.decode_content(s.get('content', '-'))
             if s.get('kind') == 'insp':
                 try_insp(s['fmt'], data, s['sizes'], s.get('expect', 'free'), s.get('label', 'seed'), s.get('cli', 'free'),
-                         s.get('feed', 'bytes'))
+                         s.get('feed', 'bytes'), s.get('forms'))
                 try_insp(s['fmt'], data, [len(data)], s.get('expect', 'free'), s.get('label', 'seed'), s.get('cli', 'free'),
-                         s.get('feed', 'bytes'))
+                         s.get('feed', 'bytes'), s.get('forms'))
+            elif s.get('kind') == 'wrap':
+                ctx.evaluations += 1
+                why = wrap_oracle(dict(s, data=data), s['sizes'], s.get('usage'))
+                if why:
+                    add(dict(s), 'wrapper ' + why.split(':')[0], '%s: %s, read ops %s, usage %s'
+                        % (s.get('label'), why, s['sizes'][:12], s.get('usage')), G.in_class_f1(data))
             elif s.get('kind') == 'cli':
                 ctx.evaluations += 1
                 why, line = cli_oracle(dict(s, data=data), tmp)
@@ -419,6 +535,23 @@ def search(ctx, seeds, full=False):
                                  rng.choice(['memoryview', 'memoryview', 'bytearray']))
             files = [it for it in items if len(it['data']) <= 64 * images.K and it['cli'] != 'free']
             rng.shuffle(files)
+            for it in files[:(500 if ctx.quick else 4000) * (2 if full else 1)]:
+                ctx.evaluations += 1
+                ops, uu = wrap_ops(it, rng)
+                why = wrap_oracle(it, ops, uu)
+                if why:
+                    plain = G.effective(len(it['data']), ops)
+                    if uu.get('iterator') or not wrap_oracle(it, plain, None):
+                        pass                                  # the usage / the read sizes are what makes it fail
+                    else:
+                        ops, uu = plain, None
+                    c = case_of(it, None, 'wrap')
+                    c.update(sizes=list(ops), usage=uu)
+                    add(c, 'wrapper ' + why.split(':')[0] + ' ' + family_of(it['label']),
+                        '%s: %s, read ops %s%s' % (it['label'], why, list(ops)[:12],
+                                                   '' if not uu else ', usage %s' % {k: v for k, v in uu.items()
+                                                                                     if v != G.DEFAULT_USAGE.get(k)}),
+                        G.in_class_f1(it['data']))
             for it in files[:(60 if ctx.quick else 400) * (2 if full else 1)]:
                 ctx.evaluations += 1
                 why, line = cli_oracle(it, tmp)
@@ -441,9 +574,15 @@ def model_agrees(ctx, case):
         return False
     data = G.decode_content(case['content'])
     if case['kind'] == 'insp':
-        vs = impl_verdicts(case['fmt'], data, case['sizes'], case.get('feed', 'bytes'))
+        vs = impl_verdicts(case['fmt'], data, case['sizes'], case.get('feed', 'bytes'),
+                           tuple(case['forms']) if case.get('forms') else None)
         model = ctx.driver.ask(G.insp_req(case['fmt'], data, case['sizes']))
         return all(v == proj(model) for v in vs)
+    if case['kind'] == 'wrap':
+        impl = wrap_verdict(data, case['sizes'], case.get('usage'))
+        model = model_wrap_verdict(ctx.driver.ask(G.wrap_req(None, None, data, case['sizes'])))
+        # KF_F1 also makes a text descriptor go unrecognised (reported as raw) depending on the first chunk
+        return impl == model and impl.startswith(('final=vmdk ', 'final=raw '))
     if case['kind'] == 'cli':
         tmp = tempfile.mkdtemp(prefix='verif-C02k-')
         try:
@@ -459,7 +598,7 @@ def classify(ctx, failure, listed_findings):
     if KF not in {f['id'] for f in listed_findings}:
         return None
     case = failure.case
-    if case.get('kind') not in ('insp', 'cli') or (case['kind'] == 'insp' and case.get('fmt') != 'vmdk'):
+    if case.get('kind') not in ('insp', 'cli', 'wrap') or (case['kind'] == 'insp' and case.get('fmt') != 'vmdk'):
         return None
     if not G.in_class_f1(G.decode_content(case['content'])):
         return None
@@ -509,13 +648,24 @@ def replay(ctx, payload):
         feed = case.get('feed', 'bytes')
         print('chunk sizes   :', case['sizes'][:40], '' if feed == 'bytes' else
               '(each chunk a %s of one reused buffer, refilled with a clean %s header afterwards)' % (feed, case['fmt']))
-        for k, v in enumerate(impl_verdicts(case['fmt'], data, case['sizes'], feed)):
+        forms = tuple(case['forms']) if case.get('forms') else None
+        if forms:
+            print('inspector constructed with call tag %s tracing=%s, eat_chunk %s' % (forms[0], forms[1], 'by keyword' if forms[2] else 'positional'))
+        for k, v in enumerate(impl_verdicts(case['fmt'], data, case['sizes'], feed, forms)):
             print('implementation, verdict taken %s: %s' % (('once', 'twice', 'three times')[k], v))
         print('model         :', proj(ctx.driver.ask(G.insp_req(case['fmt'], data, case['sizes']))))
-        why = insp_oracle(case['fmt'], data, case['sizes'], case.get('expect', 'free'), feed)
+        why = insp_oracle(case['fmt'], data, case['sizes'], case.get('expect', 'free'), feed, forms)
         print('property oracle on the implementation:', why)
         if why and case['fmt'] == 'vmdk' and G.in_class_f1(data):
             print('input lies in class KF_F1; model reproduces the verdict: %s' % model_agrees(ctx, case))
+        return 1 if why else 0
+    if kind == 'wrap':
+        uu = case.get('usage')
+        print('read through InspectWrapper with read ops %s%s' % (case['sizes'][:40], '' if not uu else ', usage %s' % uu))
+        print('implementation:', wrap_verdict(data, case['sizes'], uu))
+        print('model         :', model_wrap_verdict(ctx.driver.ask(G.wrap_req(None, None, data, case['sizes']))))
+        why = wrap_oracle(dict(case, data=data), case['sizes'], uu)
+        print('property oracle on the implementation:', why)
         return 1 if why else 0
     tmp = tempfile.mkdtemp(prefix='verif-C02r-')
     try:
